@@ -190,8 +190,13 @@ def run(ctx):
     hout = os.path.join(ctx.tmp, 'helpers.jsonl')
     rc, log = vlib.run([h, 'helpers', hout, ctx.tier], env=env, timeout=900)
     if rc != 0:
-        raise RuntimeError('c07 helper evaluation failed: ' + log[-2000:])
-    cases = [json.loads(l) for l in open(hout)]
+        if 'panic:' in log or 'fatal error:' in log:
+            # the helper process died inside OPA / a regal builtin: that is a crash of the code under test
+            vlib.violation(ctx, {'kind': 'panic', 'what': 'evaluating the framework helpers through OPA crashed the process',
+                                 'log': log[:3000]}, no_input=True)
+        else:
+            raise RuntimeError('c07 helper evaluation failed: ' + log[-2000:])
+    cases = [json.loads(l) for l in open(hout)] if os.path.exists(hout) else []
     lsp, lsp_log = lsp_cases(ctx)
     if lsp is None:
         vlib.violation(ctx, {'kind': 'correspondence', 'relation': 'convertReportToDiagnostics uses getRangeForViolation', 'log': lsp_log[-1500:]}, no_input=True)
@@ -205,19 +210,13 @@ def run(ctx):
         else:
             coq.append(t)
             keep.append(c)
-    v = ['From Regal Require Import Check.C07Check.', 'Open Scope N_scope.',
-         'Definition cases : list c07case := ' + clist('(%s)' % t for t in coq) + '.',
-         'Definition R1 := Eval vm_compute in failing case_agrees 0 cases.',
-         'Definition R2 := Eval vm_compute in failing case_meets_spec 0 cases.',
-         'Definition R3 := Eval vm_compute in length (filter case_in_domain cases).',
-         'Print R1. Print R2. Print R3.']
-    rc, cout = vlib.coq_eval(ctx, 'Cases_C07', '\n'.join(v))
+    ev, cout = shared.eval_cases(ctx, 'Cases_C07', 'From Regal Require Import Check.C07Check.', 'c07case', coq,
+                                 ['case_agrees', 'case_meets_spec'], ['case_in_domain'])
     r1 = r2 = None
     in_dom = 0
-    if rc == 0:
-        r1, r2 = vlib.parse_nat_list(cout, 'R1'), vlib.parse_nat_list(cout, 'R2')
-        m3 = re.search(r'R3 = (\d+)', cout)
-        in_dom = int(m3.group(1)) if m3 else 0
+    if ev is not None:
+        r1, r2 = ev[0]['case_agrees'], ev[0]['case_meets_spec']
+        in_dom = ev[1]['case_in_domain']
     if r1 is None or r2 is None:
         if ctx.proofs_ok:
             raise RuntimeError('case evaluation failed:\n' + cout[-3000:])
